@@ -69,7 +69,7 @@ Definition variants_of_sx (x : sx) : option variants :=
 Definition run_compile (V : variants) (C : config) (o : oracles) (t : fstree) (pv : str) (oc : item)
   : res (dict * str * option item) :=
   compile V C model_H (table_fun (o_render o)) (table_fun (o_yload o)) (table_fun (o_match o)) t pv oc.
-Definition run_spec (C : config) (o : oracles) (t : fstree) : res dict :=
-  get_data_spec C (table_fun (o_render o)) (table_fun (o_yload o)) (table_fun (o_match o)) t.
-Definition run_empty_case (C : config) (o : oracles) (t : fstree) : bool :=
-  empty_pieces_case C (table_fun (o_render o)) (table_fun (o_yload o)) (table_fun (o_match o)) t.
+Definition run_spec (V : variants) (C : config) (o : oracles) (t : fstree) : res dict :=
+  get_data_spec V C model_H (table_fun (o_render o)) (table_fun (o_yload o)) (table_fun (o_match o)) t.
+Definition run_empty_case (V : variants) (C : config) (o : oracles) (t : fstree) : bool :=
+  empty_pieces_case V C model_H (table_fun (o_render o)) (table_fun (o_yload o)) (table_fun (o_match o)) t.
